@@ -232,9 +232,13 @@ func (s *CDX) dependencies(ctx context.Context, bom *sbom.Document) ([]cdx.Depen
 		return nil, fmt.Errorf("reading state: %w", err)
 	}
 
+	// First pass: check the edges, collect the dependencies and record which
+	// components each component contains. The hierarchy is assembled afterwards,
+	// so the result does not depend on the order in which the edges are stored.
+	children := map[string][]string{}
 	for _, e := range bom.NodeList.Edges {
 		e := e
-		if _, ok := state.addedDict[e.From]; ok {
+		if e == nil {
 			continue
 		}
 
@@ -243,22 +247,13 @@ func (s *CDX) dependencies(ctx context.Context, bom *sbom.Document) ([]cdx.Depen
 			return nil, fmt.Errorf("unable to find component %s", e.From)
 		}
 
-		// In this example, we tree-ify all components related with a
-		// "contains" relationship. This is just an opinion for the demo
-		// and it is something we can parameterize
 		switch e.Type {
 		case sbom.Edge_contains:
-			// Make sure we have the target component
 			for _, targetID := range e.To {
-				state.addedDict[targetID] = struct{}{}
 				if _, ok := state.componentsDict[targetID]; !ok {
 					return nil, fmt.Errorf("unable to locate node %s", targetID)
 				}
-
-				if state.componentsDict[e.From].Components == nil {
-					state.componentsDict[e.From].Components = &[]cdx.Component{}
-				}
-				*state.componentsDict[e.From].Components = append(*state.componentsDict[e.From].Components, *state.componentsDict[targetID])
+				children[e.From] = append(children[e.From], targetID)
 			}
 
 		case sbom.Edge_dependsOn:
@@ -275,7 +270,6 @@ func (s *CDX) dependencies(ctx context.Context, bom *sbom.Document) ([]cdx.Depen
 					return nil, fmt.Errorf("unable to locate node %s", targetID)
 				}
 
-				state.addedDict[targetID] = struct{}{}
 				depListCheck[targetID] = struct{}{}
 				targetStrings = append(targetStrings, targetID)
 			}
@@ -290,6 +284,48 @@ func (s *CDX) dependencies(ctx context.Context, bom *sbom.Document) ([]cdx.Depen
 				e.From, e.Type, len(e.To),
 			)
 		}
+	}
+
+	// Second pass: nest the contained components, deepest first, so that every
+	// component is copied under its parent only once its own subtree is complete.
+	// The components directly contained in the root stay at the top level, a
+	// component is placed at most once and never under one of its own descendants.
+	built := map[string]struct{}{}
+	onPath := map[string]struct{}{}
+	var nest func(id string)
+	nest = func(id string) {
+		if _, ok := built[id]; ok {
+			return
+		}
+		built[id] = struct{}{}
+		onPath[id] = struct{}{}
+		for _, targetID := range children[id] {
+			if _, ok := onPath[targetID]; ok {
+				continue
+			}
+			if _, ok := state.addedDict[targetID]; ok {
+				continue
+			}
+			state.addedDict[targetID] = struct{}{}
+			nest(targetID)
+
+			if state.componentsDict[id].Components == nil {
+				state.componentsDict[id].Components = &[]cdx.Component{}
+			}
+			*state.componentsDict[id].Components = append(*state.componentsDict[id].Components, *state.componentsDict[targetID])
+		}
+		delete(onPath, id)
+	}
+
+	rootID := ""
+	if len(bom.NodeList.RootElements) > 0 {
+		rootID = bom.NodeList.RootElements[0]
+	}
+	for _, n := range bom.NodeList.Nodes {
+		if n == nil || n.Id == rootID {
+			continue
+		}
+		nest(n.Id)
 	}
 
 	return dependencies, nil
